@@ -37,6 +37,17 @@ Rendering (`render_project`) takes an rng for the *layout* choices that must not
 name occurrence, spacing, continuation lines, decoy comments, duplicate calls, calls nested in IF/DO.
 `run_scheduler` builds the real `loki.batch.Scheduler` and projects it to
 {"items": [{"name", "kind", "ignored", "file"}], "edges": [[a, b]...]} in insertion order.
+
+Additions for C23 / C24 / C25 (existing behaviour unchanged; `Layout.case` merely accepts the occurrence class):
+* `ClassLayout(classes)` — plain layout whose letter case is decided per occurrence class (def / use / cfg / seed / file);
+  `render_project(..., layout=, iface=True)` declares called free procedures in explicit interface blocks.
+* operation records `op_record(op, k, sfx, msfx, sub)` (dep | wrap | dup | rm) and `make_transformation(op)`;
+  `cli_config / cli_run / parse_plan` drive `loki_transform plan|convert` in-process.
+* IR-level projections: `project_of_sources`, `observe_ops_state(sched, paths0, mvi)` (record `obs` of
+  spec/Trace_SchedOps.tla: seeds, nodes, edges, cache entries, units of the cache (PC) and of the written sources (PG));
+  unit records carry `calls` (CALL statements + interface declarations = dependencies by name), `rcalls`, `ifaces`.
+* `make_link_job / write_sources / link_job` — FileWriteTransformation + gfortran compile and link with a harness-owned main.
+* `Interner`, `codes`, `tokens` — raw spellings as character-code tables for the TLA+ side (folding is done in TLA+).
 """
 import os
 import random
